@@ -71,11 +71,11 @@ def run(tier, seed):
     mism = []
     for (i, c, e) in getattr(chk, "raw_mismatches", []):
         small = {k: e[k] for k in e if k not in ("trusted",)}
-        if c in ("C09", "C09L"):
+        if c in ("C09", "C09L", "C09W", "X10"):
             small["trusted"] = e.get("trusted")
         mism.append({"cls": c, "index": i, "sig": dict(sig(e), spend_extra=has_spend_extra(e)), "event": small if len(json.dumps(small)) < 200000 else {"src": e.get("src"), "flags": e.get("flags")}})
     res["mismatch"] = mism[:400]
-    stats = {"native_ok": 0, "legacy_ok": 0, "both_ok": 0, "both_rejected": 0, "legacy_only_failed": 0, "opaque": 0, "with_trusted": 0, "refsel_accepted_multi_ref": 0, "refsel_rejected": 0, "corpus_files": set()}
+    stats = {"native_ok": 0, "legacy_ok": 0, "both_ok": 0, "both_rejected": 0, "legacy_only_failed": 0, "opaque": 0, "with_trusted": 0, "with_listing": 0, "listing_conditions": 0, "listing_over_cap": 0, "refsel_accepted_multi_ref": 0, "refsel_rejected": 0, "corpus_files": set()}
     nontrivial = set()
     samples = []
     for p in paths:
@@ -88,6 +88,11 @@ def run(tier, seed):
             stats["legacy_only_failed"] += a and not b
             stats["opaque"] += bool(e.get("opaque"))
             stats["with_trusted"] += "trusted" in e
+            csc = e.get("trusted", {}).get("csc", {})
+            if csc.get("ok") and csc.get("listed"):
+                stats["with_listing"] += 1
+                stats["listing_conditions"] += sum(len(x) for x in csc["listing"])
+                stats["listing_over_cap"] += any(len(x) > 1024 for x in csc["listing"])
             if "refsel" in e:
                 stats["refsel_accepted_multi_ref" if (a and e["nrefs"] >= 2) else "refsel_rejected" if not a else "opaque"] += 1 if (not a or e["nrefs"] >= 2) else 0
             if e.get("src") not in ("mc", "random", "frontier"):
